@@ -24,12 +24,40 @@ def gen_case(rng, cfg):
         for c in cells:
             c["cached"] = True
     maxdepth = rng.choice(cfg.get("maxdepths", [None, None, None, 6, 12]))
+    if cfg.get("absent_p"):
+        # cells that are declared (they have a space, formulas call them) but created only later, by `newcell`
+        for c in cells:
+            if rng.random() < cfg["absent_p"]:
+                c["absent"] = True
+    exists = {c["id"]: not c.get("absent") for c in cells}
     ops = []
     w = cfg["weights"]
     kinds = list(w)
     for _ in range(rng.randint(cfg.get("min_ops", 8), cfg.get("max_ops", 16))):
         k = rng.choices(kinds, [w[x] for x in kinds])[0]
         c = rng.choice(cells)
+        if k in ("delcell", "newcell"):
+            # mostly a request that applies (an existing cells is deleted, a missing one created); sometimes not
+            want = k == "delcell"
+            pool = [x for x in cells if exists[x["id"]] == want]
+            if pool and rng.random() < 0.9:
+                c = rng.choice(pool)
+            if k == "delcell":
+                ops.append(["delcell", str(c["id"])])
+                exists[c["id"]] = False
+            else:
+                g.cur_space = int(c.get("space", 0))
+                body = g.body(c["id"], c["nparams"], [x["nparams"] for x in cells])
+                cached = rng.random() < 0.75
+                ops.append(["newcell", str(c["id"]), str(int(cached)), execworld.tri(c["allow_none"]),
+                            str(c["nparams"]), sexp(body)])
+                exists[c["id"]] = True
+            continue
+        if not exists[c["id"]] and rng.random() < 0.8:
+            # (only histories that delete / create cells get here) mostly operate on cells that exist
+            pool = [x for x in cells if exists[x["id"]]]
+            if pool:
+                c = rng.choice(pool)
         if k == "eval":
             ops.append(["eval", str(c["id"])] + g.args(c["nparams"]))
         elif k == "reeval" and ops:
